@@ -253,9 +253,8 @@ class WebSocketWriter:
         """Close the websocket, sending the specified code and message."""
         if isinstance(message, str):
             message = message.encode("utf-8")
-        try:
-            await self.send_frame(
-                PACK_CLOSE_CODE(code) + message, opcode=WSMsgType.CLOSE
-            )
-        finally:
-            self._closing = True
+        # Mark the writer closing before the first suspension point: a data
+        # frame sent by another task while the close frame is being drained
+        # would otherwise follow the close frame on the wire.
+        self._closing = True
+        await self.send_frame(PACK_CLOSE_CODE(code) + message, opcode=WSMsgType.CLOSE)
